@@ -1004,7 +1004,7 @@ class Harness:
             leaked = []
             for c in list(self.conns):
                 for t in (c._read_thread, c._write_thread):
-                    if t.is_alive():
+                    if t is not None and t.is_alive():
                         t.join(self.poll * 6 + 0.2)
                         if t.is_alive():
                             leaked.append(t.name)
